@@ -261,7 +261,9 @@ def gen_flow_spec(rng, ids, acc, malformed, N=None, nb=None, bsize=None, robust=
     if rng.random() < 0.25:
         trunc = rng.choice([-1.0, 0.0, -3.0, 1.5, -10.0])
     max_s = 10 ** 6
-    if acc and rng.random() < 0.15:
+    if rng.random() < 0.15:
+        # the plain branch ignores max_samples: a small value must change nothing there (seeded change C09-hA moved the
+        # `n_proposed > max_samples: break` guard in front of both branches, leaving unwritten NaN rows in the plain pool)
         max_s = rng.choice([0, 1, bsize, 2 * bsize, total // 2 + 1, total])
     return dict(kind="acc" if acc else "plain", N=N, trunc=trunc, max_samples=max_s,
                 batches=[[c.js() for c in b] for b in batches], us=us)
